@@ -3,7 +3,8 @@ from lib import semcheck, progs, progs_r4
 from lib.semcheck import impl, model_expr, oracle, describe, shrink, IMPORTS
 
 ID = 'C06'
-THEOREMS = ['C06_control_code_correct', 'C06_control_correct_flags', 'C06_compile_body_total', 'C06_compiled_program_computes_reference', 'C06_or_spec', 'C06_ite_spec', 'C06_if_no_else_spec', 'C06_not_spec', 'C06_neg_binds_nothing', 'C06_and_spec']
+THEOREMS = ['C06_control_code_correct', 'C06_control_correct_flags', 'C06_compile_body_total', 'C06_compiled_program_computes_reference', 'C06_or_spec', 'C06_ite_spec', 'C06_if_no_else_spec', 'C06_not_spec', 'C06_neg_binds_nothing', 'C06_and_spec',
+            'C06_not_not_spec', 'C06_neg_neq_spec', 'C06_neg_neq_is_not_eq']
 CASE_TIMEOUT = 60
 MODEL_NEEDS_IMPL = True
 COQ_CHUNK = 20
